@@ -73,7 +73,51 @@ Definition unite (l : list tval) : tval :=
   | _, _ => TUnion hn ms
   end.
 
+(* does a value carry an error / an exception (they are diagnostics of the whole annotation) *)
+Fixpoint has_tag (crash : bool) (v : tval) : bool :=
+  match v with
+  | TErr => negb crash
+  | TCrash => crash
+  | TGeneric _ args => existsb (has_tag crash) args
+  | TSeq ms => (fix go (l : list (bool * tval)) : bool :=
+                  match l with [] => false | (_, x) :: r => has_tag crash x || go r end) ms
+  | TUnion _ ms => existsb (has_tag crash) ms
+  | TSub v | TCallAny v | TAnnot v _ => has_tag crash v
+  | TCall ps r => existsb (has_tag crash) ps || has_tag crash r
+  | _ => false
+  end.
+
+(* SubclassValue.make *)
+Definition type_c : N := 8%N.
+Definition mk_sub1 (v : tval) : tval :=
+  match v with
+  | TAny => TTyped type_c               (* Type[Any] is plain type *)
+  | TTyped _ | TGeneric _ _ | TSeq _ | TCallAny _ | TCall _ _ => TSub v   (* TypedValue and its subclasses *)
+  | TErr => TErr
+  | TCrash => TCrash
+  | _ => if has_tag true v then TCrash else if has_tag false v then TErr else TAny
+  end.
+Definition mk_sub (v : tval) : tval :=
+  match v with
+  | TUnion hn ms => unite (map mk_sub1 ms ++ (if hn then [TAny] else []))
+  | _ => mk_sub1 v
+  end.
+
 Definition single (vs : list tval) : list (bool * tval) := map (fun v => (false, v)) vs.
+
+(* _Visitor walks the whole expression before anything is interpreted: a starred
+   element anywhere outside a string raises NotImplementedError *)
+Fixpoint star_outside_str (e : aexpr) : bool :=
+  match e with
+  | EStarTuple _ _ => true
+  | EStr _ => false
+  | EOptional e | ETupleVar e | EType e | ECallableAny e | EAnnotated e _ | EFinal e | EClassVar e => star_outside_str e
+  | EUnion es | EGeneric _ es | ETupleFixed es => existsb star_outside_str es
+  | EOr a b => star_outside_str a || star_outside_str b
+  | EUnpackTuple pre s => existsb star_outside_str pre || star_outside_str s
+  | ECallable ps r => existsb star_outside_str ps || star_outside_str r
+  | _ => false
+  end.
 
 (* ---- AST / string route ------------------------------------------------- *)
 Fixpoint route_ast (e : aexpr) : tval :=
@@ -92,51 +136,51 @@ Fixpoint route_ast (e : aexpr) : tval :=
   | EUnpackTuple pre s => TSeq (single (map route_ast pre) ++ [(true, route_ast s)])
   | ELiteral ls => unite (map TLit ls)
   | ELitNested _ _ => TErr                         (* "Arguments to Literal[] must be literals" *)
-  | EType e => TSub (route_ast e)
+  | EType e => mk_sub (route_ast e)
   | ECallableAny r => TCallAny (route_ast r)
   | ECallable ps r => TCall (map route_ast ps) (route_ast r)
   | EAnnotated e m => TAnnot (route_ast e) m
-  | EFinal _ => TErr                               (* "Unrecognized subscripted annotation" *)
-  | EClassVar _ => TErr
+  | EFinal e => if star_outside_str e then TCrash else TErr   (* "Unrecognized subscripted annotation" *)
+  | EClassVar e => if star_outside_str e then TCrash else TErr
   | EStr e => route_ast e                          (* _eval_forward_ref: parse, then this route *)
   end.
 
-(* ---- runtime-object route ------------------------------------------------ *)
-Fixpoint route_runtime (e : aexpr) : tval :=
+(* ---- runtime-object route and the visitor route --------------------------- *)
+(* Both convert the object that evaluating the expression produces; they differ
+   only in what happens to a starred member (`star`). *)
+Fixpoint route_rt (star : list tval -> tval -> tval) (e : aexpr) : tval :=
   match e with
   | EClass c => TTyped c
   | ENone => TNone
   | EAny => TAny
-  | EOptional e => unite [route_runtime e; TNone]  (* typing: Optional[X] = Union[X, None] *)
-  | EUnion es => unite (map route_runtime es)
-  | EOr a b => unite [route_runtime a; route_runtime b]
-  | EGeneric c es => TGeneric c (map route_runtime es)
-  | ETupleVar e => TGeneric tuple_c [route_runtime e]
-  | ETupleFixed es => TSeq (single (map route_runtime es))
+  | EOptional e => unite [route_rt star e; TNone]  (* typing: Optional[X] = Union[X, None] *)
+  | EUnion es => unite (map (route_rt star) es)
+  | EOr a b => unite [route_rt star a; route_rt star b]
+  | EGeneric c es => TGeneric c (map (route_rt star) es)
+  | ETupleVar e => TGeneric tuple_c [route_rt star e]
+  | ETupleFixed es => TSeq (single (map (route_rt star) es))
   | ETupleEmpty => TSeq []
-  | EStarTuple pre s =>                            (* get_origin of the starred alias is tuple: the star is lost *)
-      TSeq (single (map route_runtime pre) ++ [(false, TGeneric tuple_c [route_runtime s])])
-  | EUnpackTuple pre s => TSeq (single (map route_runtime pre) ++ [(true, route_runtime s)])
+  | EStarTuple pre s => star (map (route_rt star) pre) (route_rt star s)
+  | EUnpackTuple pre s => TSeq (single (map (route_rt star) pre) ++ [(true, route_rt star s)])
   | ELiteral ls => unite (map TLit ls)
   | ELitNested inner ls => unite (map TLit (inner ++ ls))   (* typing flattens nested Literal *)
-  | EType e => TSub (route_runtime e)
-  | ECallableAny r => TCallAny (route_runtime r)
-  | ECallable ps r => TCall (map route_runtime ps) (route_runtime r)
-  | EAnnotated e m => TAnnot (route_runtime e) m
-  | EFinal e => route_runtime e
-  | EClassVar e => route_runtime e
+  | EType e => mk_sub (route_rt star e)
+  | ECallableAny r => TCallAny (route_rt star r)
+  | ECallable ps r => TCall (map (route_rt star) ps) (route_rt star r)
+  | EAnnotated e m => TAnnot (route_rt star e) m
+  | EFinal e => route_rt star e
+  | EClassVar e => route_rt star e
   | EStr e => route_ast e                          (* a str object goes through _eval_forward_ref *)
   end.
 
-(* ---- annotation written in the checked module ---------------------------- *)
-(* the visitor evaluates the expression to the runtime object and converts
-   that; a top-level string is parsed; a starred member is not understood *)
-Definition route_visitor (e : aexpr) : tval :=
-  match e with
-  | EStarTuple _ _ => TSeq [(false, TAny)]
-  | EStr e' => route_ast e'
-  | _ => route_runtime e
-  end.
+(* _value_of_origin_args: get_origin of the starred alias is tuple, the star is lost *)
+Definition star_runtime (pre : list tval) (s : tval) : tval :=
+  TSeq (single pre ++ [(false, TGeneric tuple_c [s])]).
+(* value_of_annotation: the starred subscript is not understood; the result is tuple[Any] *)
+Definition star_visitor (pre : list tval) (s : tval) : tval := TSeq [(false, TAny)].
+
+Definition route_runtime : aexpr -> tval := route_rt star_runtime.
+Definition route_visitor : aexpr -> tval := route_rt star_visitor.
 
 (* ---- guard: the three classes on which the routes are known to differ ---- *)
 Fixpoint has_star_unpack (e : aexpr) : bool :=
